@@ -90,10 +90,12 @@ Theorem C17_stratify_with :
      \/ forallb (fun ce => mem_str (fst ce) (m_orig m)) (s_iadj s) = false
      \/ (exists mm, s_mix s = Some mm /\ list_str_eqb (s_comps s) (m_orig m) = false)
      \/ (is_strain (s_kind s) = true /\ existsb (fun s' => is_strain (s_kind s')) (m_strats m) = true)
-     \/ forallb (fun c => mem_str c (m_orig m)) (s_comps s) = false) ->
+     \/ forallb (fun c => mem_str c (m_orig m)) (s_comps s) = false
+     \/ (is_age (s_kind s) = true /\ existsb (fun s' => is_age (s_kind s')) (m_strats m) = true)
+     \/ (is_age (s_kind s) = true /\ list_str_eqb (s_comps s) (m_orig m) = false)) ->
     rejected (stratify_with m s0).
 Proof.
-  intros m s0 Hv s [H|[H|[H|[H|[[mm [H1 H2]]|[[H1 H2]|H]]]]]].
+  intros m s0 Hv s [H|[H|[H|[H|[[mm [H1 H2]]|[[H1 H2]|[H|[[H1 H2]|[H1 H2]]]]]]]]].
   - apply reject_duplicate_stratification; assumption.
   - apply reject_adjusting_unknown_flow; assumption.
   - apply reject_unknown_filter_strata; assumption.
@@ -101,6 +103,8 @@ Proof.
   - eapply reject_mixing_on_partial; eassumption.
   - apply reject_second_strain; assumption.
   - apply reject_stratify_unknown_compartment; assumption.
+  - apply reject_second_age; assumption.
+  - apply reject_age_on_partial; assumption.
 Qed.
 Print Assumptions C17_stratify_with.
 
